@@ -129,7 +129,7 @@ RawSnap == [obj |-> Line.obj, tf |-> Line.tf, dg |-> DgSet(Line.diags), pn |-> L
 GroupEntries(meta, gen, schema, d, cfg) ==
   UNION {
     LET gc == meta.gchecks[i]
-    IN CASE gc.k = "fn" -> {<<"fn:" \o gen.funcs[j].name, gen.funcs[j].sha, gc.c>> : j \in {x \in DOMAIN gen.funcs : ~gen.funcs[x].method}}
+    IN CASE gc.k = "fn" -> {<<"fn:" \o gen.funcs[j].name, gen.funcs[j].sha, gc.c>> : j \in {x \in DOMAIN gen.funcs : gen.funcs[x].api}}
          [] gc.k = "sha" -> {<<"sha", gen.sha, gc.c>>}
          [] gc.k = "content" -> {<<"content", gen.contentsha, gc.c>>}
          [] OTHER -> {}
@@ -212,7 +212,7 @@ TraceReset ==
                    \* the observed run against the run machine (RunModel.tla / GenRun.tla): exit status, order of the files processed,
                    \* warnings, order of the emitted functions, package clause
                    \/ LET r == RunOut(d, cfg)
-                          topf == SelectSeq(gen.funcs, LAMBDA f : ~f.method)
+                          topf == SelectSeq(gen.funcs, LAMBDA f : f.api)
                       IN \/ (gen.exit = 0) # (r.exit = 0)
                          \/ (r.exit = 0 /\ (gen.processing # r.processing \/ gen.warned # r.warned \/ gen.package # r.package
                                              \/ [i \in DOMAIN topf |-> topf[i].name] # r.funcs)),
